@@ -303,6 +303,12 @@ def runIterMut (kind : Kind) (prog : Array (XCall × IMWrite Int)) (s : Store In
 /-- the `late` mode of the harness: the references are collected, the guard is dropped (heap rebuilt on the UNCHANGED
 priorities), and only then the writes are performed — what `iter_mut().collect::<Vec<_>>()` followed by writes does -/
 def runIterMutLate (kind : Kind) (prog : Array (XCall × IMWrite Int)) (s : Store Int) : R (Store Int × String) := do
+  let prims := prog.toList.filterMap fun (c, w) => match c with | .prim c => some (c, w) | _ => none
+  if prims.length == prog.size then
+    -- the model's own definition (`Ops.iterMutLate`); outputs are shown against the unwritten map
+    let (s', outs) ← iterMutLate kind s prims
+    let out := outs.foldl (fun acc o => acc ++ " " ++ showOut s.map o) ""
+    return (s', out)
   let nowrite : IMWrite Int := ⟨none, none⟩
   let (_, out, _) ← runIterMut kind (prog.map fun (c, _) => (c, nowrite)) s
   let s1 ← match kind with | .pq => MaxQ.heapBuild s | .dpq => DQ.heapBuild s
@@ -733,7 +739,8 @@ def runLine (st : St) (lhs : List String) : Except String (St × String) :=
           else match r with
             | .error e => .error e
             | .ok none => runLine st (inner :: rest)   -- the fuse does not fire: the operation runs to completion
-            | .ok (some (k', s')) => .ok (st, s!"fault user | {kindName k'} {showCore s'}")
+            -- the queue survives the caught panic: later lines of the case operate on the model's post-unwinding state
+            | .ok (some (k', s')) => .ok ({ st with kind := k', s := s' }, s!"fault user | {kindName k'} {showCore s'}")
       | _, _ => .error s!"bad crash line {op}"
     else
       match (exec st op).run args with
